@@ -421,8 +421,9 @@ def judge(item, res, labels, cls_ctor=None):
     # ---- termination (clause f) ----
     if res["aborted"]:
         vio.append(violation(PROP, "f", "no-termination:%s" % version,
-                             "v%s: builder still reading after %d reads (%s)" %
-                             (version, res["reads"], "after end of input" if ended_by_eof else "answers were legal")))
+                             "v%s: builder %s (%s)" %
+                             (version, res.get("abort_reason") or ("still reading after %d reads" % res["reads"]),
+                              "after end of input" if ended_by_eof else "answers were legal")))
         return vio, info
     if res["exc"] is not None:
         if not ended_by_eof:
